@@ -1,6 +1,6 @@
-//! Default (cheap) model: the handle is generic over the task's FUTURE type, so there is no `dyn`; an expansion that
-//! *names* `::tokio::task::JoinHandle<T>` does not build against it and is re-run against `../tokio_dyn` (same
-//! behaviour, handle generic over the output type like the real one, task type-erased, 20-30x slower under CBMC).
+//! Fallback variant of ../tokio: identical behaviour, but `JoinHandle<T>` is generic over the OUTPUT type (the task is
+//! a `Pin<Box<dyn Future>>`), so that expansions naming `::tokio::task::JoinHandle<T>` build. Used only for programs that
+//! do not build against the default model.
 //!
 //! Model of `tokio::spawn` (a path dependency literally named `tokio`, so that the `::tokio::spawn`
 //! written by the expansion resolves here).
@@ -43,31 +43,34 @@ fn rw_clone(_: *const ()) -> RawWaker { RawWaker::new(core::ptr::null(), &VT) }
 fn rw_nop(_: *const ()) {}
 static VT: RawWakerVTable = RawWakerVTable::new(rw_clone, rw_nop, rw_nop, rw_nop);
 
-pub struct JoinHandle<F: Future> { fut: Option<Pin<Box<F>>>, out: Option<F::Output>, fault: bool }
-impl<F: Future> Unpin for JoinHandle<F> {}
+/// Like the real one, the handle is generic over the task's OUTPUT type (so that an expansion may name
+/// `::tokio::task::JoinHandle<T>`); the task itself is type-erased.
+pub struct JoinHandle<T> { fut: Option<Pin<Box<dyn Future<Output = T> + Send + 'static>>>, out: Option<T>, fault: bool, aborted: bool }
+impl<T> Unpin for JoinHandle<T> {}
 
-pub fn spawn<F>(f: F) -> JoinHandle<F>
+pub fn spawn<F>(f: F) -> JoinHandle<F::Output>
 where F: Future + Send + 'static, F::Output: Send + 'static {
-    let mut f = Box::pin(f);
+    let mut f: Pin<Box<dyn Future<Output = F::Output> + Send + 'static>> = Box::pin(f);
     unsafe { SPAWNED += 1; }
-    if unsafe { FAULTS } && nd::bool() { unsafe { FAULTED += 1; } return JoinHandle { fut: None, out: None, fault: true }; }
+    if unsafe { FAULTS } && nd::bool() { unsafe { FAULTED += 1; } return JoinHandle { fut: None, out: None, fault: true, aborted: false }; }
     let eager = nd::bool();
     if eager {
         unsafe { EAGER += 1; }
         let waker = match unsafe { ROOT.as_ref() } { Some(w) => w.clone(), None => unsafe { Waker::from_raw(RawWaker::new(core::ptr::null(), &VT)) } };
         let mut cx = Context::from_waker(&waker);
-        if let Poll::Ready(v) = f.as_mut().poll(&mut cx) { unsafe { COMPLETED += 1; } return JoinHandle { fut: None, out: Some(v), fault: false }; }
+        if let Poll::Ready(v) = f.as_mut().poll(&mut cx) { unsafe { COMPLETED += 1; } return JoinHandle { fut: None, out: Some(v), fault: false, aborted: false }; }
     }
-    JoinHandle { fut: Some(f), out: None, fault: false }
+    JoinHandle { fut: Some(f), out: None, fault: false, aborted: false }
 }
 
-impl<F: Future> JoinHandle<F> {
+impl<T> JoinHandle<T> {
     pub fn is_finished(&self) -> bool { self.fut.is_none() }
+    /// cancel the task: if it has not completed yet its handle yields a cancelled JoinError
     pub fn abort(&self) { unsafe { ABORTS += 1; } }
 }
 
-impl<F: Future> Future for JoinHandle<F> {
-    type Output = Result<F::Output, task::JoinError>;
+impl<T> Future for JoinHandle<T> {
+    type Output = Result<T, task::JoinError>;
     fn poll(mut self: Pin<&mut Self>, cx: &mut Context<'_>) -> Poll<Self::Output> {
         unsafe { if HANDLE_POLLS == 0 { SPAWNED_AT_FIRST_HANDLE_POLL = SPAWNED; } HANDLE_POLLS += 1; }
         if self.fault { unsafe { FAULT_SEEN += 1; } return Poll::Ready(Err(task::JoinError { cancelled: false })); }
